@@ -249,6 +249,18 @@ func ZZ_C16_JSON(useNumber, disallow int) {
 		i := vrt.IntIn(0, len(want)-1)
 		vrt.Assert(out[i] == want[i], "c16-json-forwards-marshalled-bytes-unchanged")
 		vrt.Reach("c16-json-encoded")
+		// a second message through the same codec instance: what was forwarded for the first one may still be
+		// queued behind it and must not change
+		w2 := &zzCtx{}
+		if vrt.Panics(func() { cdc.HandleWrite(w2, map[string]interface{}{"k": 2, "j": 3}) }) == nil {
+			vrt.Assert(len(w2.out) == 1, "c16-json-forwards-one-message")
+			out2, ok2 := w2.out[0].([]byte)
+			want2 := vrt.JSONLastMarshal()
+			vrt.Assert(ok2 && len(out2) == len(want2), "c16-json-forwards-marshalled-bytes")
+			j := vrt.IntIn(0, len(want2)-1)
+			vrt.Assert(out2[j] == want2[j], "c16-json-forwards-marshalled-bytes-unchanged")
+			vrt.Assert(len(out) == len(want) && out[i] == want[i], "c16-json-earlier-output-unchanged-by-a-later-write")
+		}
 	}
 }
 
